@@ -426,7 +426,7 @@ def replay_synthetic(d):
     return (not p), "synthetic loci: %s" % (p[:5] or "labels, strands, chains consistent")
 
 
-@bounded("C04.synthetic_loci", ["C04"], shards=8, note="one pipeline run on three synthetic loci written into a gene-free stretch of the bundled reference "
+@bounded("C04.synthetic_loci", ["C04"], note="one pipeline run on three synthetic loci written into a gene-free stretch of the bundled reference "
          "(own GTF, pysam-written reads): an intron 3 bp off an annotated acceptor, a novel combination of annotated introns, an unrelated "
          "novel intron; the same output invariants as C04.pipeline_outputs (suffix .nic iff all introns annotated, definite strand, ...)")
 def c04_synthetic(tier, rng):
@@ -436,3 +436,113 @@ def c04_synthetic(tier, rng):
         viol.append({"obligation": "C04.synthetic_loci", "inputs": {"scenario": "synthetic"}, "observed": p[:5],
                      "required": "novel models labelled by whether ALL their introns are annotated", "replay_call": "contracts.c_novel:replay_synthetic"})
     return {"cases": 3, "bound": "3 synthetic loci, 10 reads each", "violations": viol, "samples": [{"locus": "near-annotated acceptor (3 bp)"}]}
+
+
+# ---- alternative polyA sites behind one intron chain (annotation-free run): novel models must not repeat a chain ---------------------------
+def _altpolya_inputs(d):
+    """three unannotated '+' loci in the gene-free stretch of the bundled reference, splice sites moved to the nearest GT / AG so that the
+    strand is definite; every read carries a 30-base polyA tail (soft clip):
+    A: a 4-exon isoform with two polyA sites 300 bp apart, the reads of the distal site start 99 bp later than those of the proximal one
+    B: the same shape, all reads start at the same place
+    C: a 2-exon isoform with two polyA sites 300 bp apart"""
+    import gzip, os
+    import pysam
+    seq = "".join(l.strip() for l in gzip.open(os.path.join(d, "chr9.4M.fa.gz"), "rt") if not l.startswith(">")).upper()
+    inp = pysam.AlignmentFile(os.path.join(d, "chr9.4M.ont.sim.polya.bam"))
+    tid = inp.get_tid("chr9")
+
+    def exons_at(o, shape):
+        # shape: exon (start, end) offsets; each intron is snapped to a canonical GT..AG pair of the reference
+        ex = [(o + a, o + b) for a, b in shape]
+        out = [list(ex[0])]
+        for k in range(1, len(ex)):
+            s = seq.find("GT", out[-1][1])                 # 0-based index of G: intron starts at 1-based s + 1
+            e = seq.find("AG", ex[k][0] - 30) + 2          # 1-based end of the intron (the G of AG)
+            out[-1][1] = s
+            out.append([e + 1, ex[k][1] + (e + 1 - ex[k][0])])
+        return [tuple(x) for x in out]
+
+    def variant(ex, start_shift, end_cut):
+        return [(ex[0][0] + start_shift, ex[0][1])] + ex[1:-1] + [(ex[-1][0], ex[-1][1] - end_cut)]
+    base = 3041000
+    four = [(1001, 1200), (1501, 1700), (2001, 2200), (2501, 2900)]
+    A = exons_at(base, four)
+    B = exons_at(base + 10000, four)
+    C = exons_at(base + 20000, [(1001, 1200), (2501, 2900)])
+    groups = [("A_distal", variant(A, 99, 0)), ("A_proximal", variant(A, 0, 300)), ("B_distal", variant(B, 0, 0)), ("B_proximal", variant(B, 0, 300)),
+              ("C_distal", variant(C, 0, 0)), ("C_proximal", variant(C, 0, 300))]
+    recs = []
+    for name, ex in groups:
+        for k in range(6):
+            a = pysam.AlignedSegment(inp.header)
+            a.query_name, a.flag, a.reference_id, a.reference_start, a.mapping_quality = "%s_%d" % (name, k), 0, tid, ex[0][0] - 1, 60
+            cig, s_ = [], ""
+            for i, (x, y) in enumerate(ex):
+                if i:
+                    cig.append((3, x - ex[i - 1][1] - 1))
+                cig.append((0, y - x + 1)); s_ += seq[x - 1:y]
+            cig.append((4, 30)); s_ += "A" * 30
+            a.cigartuples, a.query_sequence = cig, s_
+            a.query_qualities = pysam.qualitystring_to_array("I" * len(s_))
+            a.set_tag("NM", 0)
+            recs.append(a)
+    with pysam.AlignmentFile(os.path.join(d, "alt.bam"), "wb", template=inp) as out:
+        for a in sorted(recs, key=lambda x: x.reference_start):
+            out.write(a)
+    pysam.index(os.path.join(d, "alt.bam"))
+    return "alt.bam", "chr9.4M.gtf.gz"
+
+
+def _altpolya_run():
+    import os, shutil
+    d, p = _run_pipeline([], False, _altpolya_inputs)
+    try:
+        if p.returncode != 0:
+            return None, ["isoquant exited %d: %s" % (p.returncode, p.stderr[-300:])]
+        models = _parse_gtf(os.path.join(d, "out", "S", "S.transcript_models.gtf"))
+    finally:
+        shutil.rmtree(d, ignore_errors=True)
+    pairs = []
+    seen = {}
+    for tid in sorted(models):
+        t = models[tid]
+        if not t["introns"]:
+            continue
+        key = (t["strand"], t["introns"])
+        if key in seen:
+            o = models[seen[key]]
+            pairs.append({"models": [seen[key], tid], "exon_counts": [len(o["exons"]), len(t["exons"])], "strand": t["strand"],
+                          "introns": list(t["introns"]), "spans": [o["span"], t["span"]]})
+        else:
+            seen[key] = tid
+    return models, pairs
+
+
+def kf_two_exon_alt_polya(inputs):
+    """known-finding class: the two novel models that share the intron chain are both mono-intronic (2 exons): detect_similar_isoforms
+    never uses a model with <= 2 exons as the absorbing one, so alternative polyA sites of a 2-exon isoform are reported as two models"""
+    return isinstance(inputs, dict) and inputs.get("exon_counts") and all(c == 2 for c in inputs["exon_counts"])
+
+
+def replay_altpolya(d):
+    models, pairs = _altpolya_run()
+    want = d["inputs"].get("introns")
+    hit = [p for p in (pairs or []) if isinstance(p, dict) and [list(i) for i in p["introns"]] == [list(i) for i in (want or [])]]
+    return (not hit), "novel models sharing the intron chain %s: %s" % (want, hit or "none")
+
+
+@bounded("C04.alt_polya_loci", ["C04"], note="one annotation-free pipeline run on three synthetic '+' loci with alternative polyA sites behind one "
+         "intron chain (4-exon isoform with staggered and with common read starts, 2-exon isoform): no two reported novel models share strand and "
+         "intron chain")
+def c04_altpolya(tier, rng):
+    models, pairs = _altpolya_run()
+    if models is None:
+        return {"cases": 3, "bound": "3 synthetic loci", "error": "; ".join(pairs)}
+    viol = [{"obligation": "C04.alt_polya_loci.%s" % "_".join(p["models"]), "inputs": p,
+             "observed": "%s and %s (%s exons) share the intron chain %s on %s" % (p["models"][0], p["models"][1], p["exon_counts"], p["introns"], p["strand"]),
+             "required": "the intron chain differs from that of every other reported novel transcript on the same strand",
+             "replay_call": "contracts.c_novel:replay_altpolya"} for p in pairs]
+    if not any(t["introns"] for t in models.values()):
+        viol.append({"obligation": "C04.alt_polya_loci.nontrivial", "inputs": None, "observed": "no spliced novel model reported: the scenario no longer exercises the filter",
+                     "required": "at least one spliced novel model", "undecided": True})
+    return {"cases": 3, "bound": "3 synthetic loci, 12 polyA reads each", "violations": viol, "samples": [{"models": sorted(models)[:6]}]}
